@@ -38,7 +38,9 @@ EXPLANATION = (
     ' '
     'R-C09.1 follows single-assignment copies of the key arguments; R-C09.12 no add_dependency call of EvolutionGraph is conditional on what the graph already contains.'
     ' '
-    "R-C09.5 classifies the walk's sets on the CFG within one iteration: the in-progress set is the one marked before the dependencies are scanned.")
+    "R-C09.5 classifies the walk's sets on the CFG within one iteration: the in-progress set is the one marked before the dependencies are scanned."
+    ' '
+    'R-C09.13 = R-C08.5.')
 NOT_DECIDED = (
     'Correctness of the topological sort on all graphs, and the behaviour '
     'of Django\'s own migration planner.')
@@ -937,7 +939,13 @@ def r12_declared_requirements_registered_unconditionally(ctx):
     ctx.floor('add_dependency call sites in EvolutionGraph', n, 8)
 
 
+def r13_batch_sql_from_batch_labels(ctx):
+    from .c08 import r5_batch_labels
+    r5_batch_labels(ctx, rule_id='R-C09.13')
+
+
 def run(ctx):
+    r13_batch_sql_from_batch_labels(ctx)
     r12_declared_requirements_registered_unconditionally(ctx)
     r11_dependency_kinds_registered_independently(ctx)
     r10_mutation_deps_merged(ctx)
